@@ -61,6 +61,11 @@ ONE_SHAPER_CALLS = (("shex", SHEXC), ("profile", None), ("profile", None), ("she
 
 def _check_C04_one_shaper(case, B):
     """Call-history slice: all calls on ONE Shaper (shex_graph -> profile_graph -> profile_graph -> SHACL -> other threshold ...)."""
+    with SU.input_file(case["input"]) as inp2:
+        return _check_C04_one_shaper_(case, B, inp2)
+
+
+def _check_C04_one_shaper_(case, B, inp2):
     inp, cfg, t = case["input"], case["cfg"], case.get("t", 0)
     box = [None]
     done = []
@@ -70,7 +75,7 @@ def _check_C04_one_shaper(case, B):
 
         def do(call=call):
             if box[0] is None:
-                box[0] = SU.new_shaper(inp, cfg)
+                box[0] = SU.new_shaper(inp2, cfg)
             if call[0] == "profile":
                 return box[0].profile_graph(string_output=True)
             return SU._shex(box[0], call[1], (1 if t != 1 else 0.5) if len(call) > 2 else t)
@@ -111,11 +116,12 @@ def check_C04(case, B):
         phase = ["constructing the Shaper"]
 
         def do(call=call, phase=phase):
-            sh = SU.new_shaper(inp, cfg)
-            phase[0] = "the call"
-            if call[0] == "profile":
-                return sh.profile_graph(string_output=True)
-            return SU.shex(sh, call[1], t)
+            with SU.input_file(inp) as inp2:
+                sh = SU.new_shaper(inp2, cfg)
+                phase[0] = "the call"
+                if call[0] == "profile":
+                    return sh.profile_graph(string_output=True)
+                return SU.shex(sh, call[1], t)
         exc = None
         try:
             out = SU.guarded(do)
@@ -325,6 +331,16 @@ def _c04_specials():
             cfg = _merge(allc if k % 3 else {"target_classes": [G.CLASS_A]}, {"inverse_paths": True}, {"examples_mode": em} if em else {},
                          {"disable_or_statements": False} if k % 7 == 0 else {}, {"detect_minimal_iri": True} if k % 6 == 0 else {})
             out.append(("mixed-incoming-subjects", SU.render_input(Tm, ("nt", "turtle", "turtle_iter")[k % 3], k), cfg, (0, 0, 0.5, 1)[k % 4]))
+    # the empty graph (no triples): as raw text and, as a control, as an empty file
+    for fmt in ("nt", "tsv_spo", "turtle_iter", "turtle", "n3"):
+        for cfg in ({"target_classes": [G.CLASS_A]}, allc, _merge(allc, {"inverse_paths": True}), {"target_classes": [G.CLASS_A], "remove_empty_shapes": False},
+                    _merge(allc, {"detect_minimal_iri": True, "examples_mode": "all"})):
+            for as_file in (False, True):
+                for text in ("", "\n"):
+                    inp_e = {"format": fmt, "text": text}
+                    if as_file:
+                        inp_e["as_file"] = True
+                    out.append(("empty-graph", inp_e, cfg, 0))
     no_types = [M.Triple(s1, G.PROP_P, M.Lit("x")), M.Triple(s1, G.PROP_Q, s2)]
     out.append(("no-type-triples", SU.render_input(no_types, "nt"), allc, 0))
     out.append(("no-type-triples", SU.render_input(no_types, "nt"), {"target_classes": [G.CLASS_A], "inverse_paths": True}, 0))
@@ -345,6 +361,7 @@ def gen_C04(tier, rng):
     step = 6 if tier == "selftest" else 33                # ~3 %: the same inputs with a call history on ONE Shaper
     for i in range(3, len(cases), step):
         cases.append(dict(cases[i], one_shaper=True, origin="call-history"))
+    cases += [dict(c, one_shaper=True, origin="call-history") for c in cases if c["origin"] == "empty-graph"][::5]
     return cases
 
 
@@ -557,6 +574,29 @@ def gen_C05(tier, rng):
         for extra in ({}, {"remove_empty_shapes": False}, {"inverse_paths": True}):
             cases.append({"pid": "C05", "origin": "emptied-shape", "input": {"format": "nt", "text": U.to_nt(Te)},
                           "cfg": _merge({"all_classes_mode": True, "shape_map_raw": "{FOCUS o:q _}@<http://shapes.ex/L1>"}, extra), "t": t})
+    # all_classes_mode + shape map where a CLASS IRI is itself a tracked instance (typed owl:Class / selected by the map); ontology first
+    OWL_CLASS = "http://www.w3.org/2002/07/owl#Class"
+    cA, cB = M.IRI(G.CLASS_A), M.IRI(G.CLASS_B)
+    onto = [M.Triple(cA, M.RDF_TYPE, M.IRI(OWL_CLASS)), M.Triple(cB, M.RDF_TYPE, M.IRI(OWL_CLASS)), M.Triple(cA, G.PROP_P, M.Lit("the class A")),
+            M.Triple(cB, G.OTHER + "sub", cA)]
+    k = 0
+    for n_a in (1, 2, 3):
+        for n_b in (0, 2):
+            data = []
+            for j in range(n_a):
+                x = M.IRI(G.EX + "a%d" % j)
+                data += [M.Triple(x, M.RDF_TYPE, cA), M.Triple(x, G.PROP_P, M.Lit("x%d" % j))]
+            for j in range(n_b):
+                x = M.IRI(G.EX + "b%d" % j)
+                data += [M.Triple(x, M.RDF_TYPE, cB), M.Triple(x, G.PROP_Q, M.IRI(G.EX + "a0"))]
+            for sm in ("{FOCUS ex:p _}@<http://shapes.ex/L1>", "<%s>@<http://shapes.ex/L1>" % G.CLASS_A,
+                       "{FOCUS a <%s>}@<http://shapes.ex/L1>" % OWL_CLASS, "<%s>@<http://shapes.ex/L1>\n<%s>@<http://shapes.ex/L2>" % (G.CLASS_A, G.CLASS_B)):
+                for first in ("ontology", "data"):
+                    k += 1
+                    Tc = onto + data if first == "ontology" else data + onto
+                    cases.append({"pid": "C05", "origin": "class-iri-is-an-instance", "input": {"format": "nt", "text": U.to_nt(Tc)},
+                                  "cfg": _merge({"all_classes_mode": True, "shape_map_raw": sm}, {"inverse_paths": True} if k % 3 == 0 else {}),
+                                  "t": (0, 0, 0.5)[k % 3]})
     # blank-node classes (printed as [<_:x>]): a handful, to observe
     s1, s2 = M.IRI(G.EX + "s1"), M.IRI(G.EX + "s2")
     Tb = [M.Triple(s1, M.RDF_TYPE, M.BNode("c")), M.Triple(s2, M.RDF_TYPE, M.BNode("c")), M.Triple(s1, M.RDF_TYPE, M.IRI(G.CLASS_A)),
@@ -1457,6 +1497,21 @@ def _c15_numbers(T, rng):
     return U.dedup(out)
 
 
+def _c15_httpish(T, rng):
+    """Plain string literals that begin with "http" without being URLs.  (Strings that DO start with http:// or https:// are excluded: the
+    endpoint path of the unchanged tree already reads them as IRIs -- pre-existing, reported separately.)"""
+    M, S, G = U.lib()
+    words = [M.Lit(x) for x in ("httpd 2.4", "https only", "http", "https", "httpx", "http:", "https:/x", "http-header", "HTTP/1.1")]
+    subjects = U.dedup([s for (s, p, o) in T if p == M.RDF_TYPE])
+    out = list(T)
+    for x in subjects:
+        for v in rng.sample(words, rng.randint(1, 2)):
+            out.append(M.Triple(x, G.EX + "server", v))
+        if rng.random() < 0.4:
+            out.append(M.Triple(x, rng.choice([p for (s, p, o) in T if p != M.RDF_TYPE] or [G.PROP_P]), rng.choice(words)))
+    return U.dedup(out)
+
+
 def _c15_cap_cases(rng, n):
     """limit_remote_instances < instances_cap < number of instances; interchangeable instances (any k of them give the same shape)."""
     M, S, G = U.lib()
@@ -1532,7 +1587,7 @@ def gen_C15(tier, rng):
     n = {"selftest": 30, "quick": 900, "thorough": 6500}[tier]
     cases = []
     n_nonhttp = {"selftest": 14, "quick": 200, "thorough": 1500}[tier]
-    n_num = {"selftest": 10, "quick": 130, "thorough": 1000}[tier]
+    n_num = {"selftest": 12, "quick": 150, "thorough": 1200}[tier]
     cases += _c15_cap_cases(rng, {"selftest": 8, "quick": 60, "thorough": 400}[tier])
     cases += _c15_same_local_name_cases(rng, {"selftest": 9, "quick": 60, "thorough": 400}[tier])
     for gi in range(n + n_nonhttp + n_num):
@@ -1541,7 +1596,7 @@ def gen_C15(tier, rng):
         if nonhttp:
             T = _c15_nonhttp(T, rng)
         if gi >= n + n_nonhttp:
-            T = _c15_numbers(T, rng)
+            T = _c15_numbers(T, rng) if (gi - n - n_nonhttp) % 3 else _c15_httpish(T, rng)
         classes = U.dedup([o.iri for (s, p, o) in T if p == M.RDF_TYPE])
         props = U.dedup([p for (s, p, o) in T if p != M.RDF_TYPE])
         subjects = U.dedup([s.iri for (s, p, o) in T])
@@ -1566,7 +1621,7 @@ def gen_C15(tier, rng):
             cases.append({"pid": "C15", "origin": family + ("+non-http-iris" if nonhttp else ""), "nt": U.to_nt(Tk), "sel": sel, "inverse": inv,
                           "track": (gi // 2 + k) % 2 == 1})
             if gi >= n + n_nonhttp:
-                cases[-1]["origin"] += "+signed-numbers"
+                cases[-1]["origin"] += "+signed-numbers" if (gi - n - n_nonhttp) % 3 else "+http-like-strings"
     return cases
 
 
@@ -2025,6 +2080,40 @@ def _mutants():
                 self._strategy_min_iri.annotate_shape_iri(a_shape)
             yield a_shape
 
+    import shexer.io.graph.yielder.base_triples_yielder as bty
+    import shexer.core.instances.mix.mixed_instance_tracker as mit
+    import shexer.model.graph.rdflib_sgraph as rsg
+
+    def corners_for_anything_http(a_candidate_uri):
+        if a_candidate_uri.startswith("http"):                                     # seeded: not "http://" / "https://"
+            return "<" + a_candidate_uri + ">"
+        return a_candidate_uri
+
+    def patch_corners():
+        olds = [(m, m.add_corners_if_it_is_an_uri) for m in (sfs, rsg) if hasattr(m, "add_corners_if_it_is_an_uri")]
+        for m, _ in olds:
+            m.add_corners_if_it_is_an_uri = corners_for_anything_http
+
+        def undo():
+            for m, o in olds:
+                m.add_corners_if_it_is_an_uri = o
+        return undo
+
+    def decide_line_reader_truthy(self, raw_graph, source_file, compression_mode=None, zip_base_archive=None):
+        if raw_graph:                                                              # seeded: `if raw_graph:` instead of `is not None`
+            return bty.RawStringLineReader(raw_string=raw_graph)
+        return bty.FileLineReader(source_file=source_file)
+
+    def integrate_dicts_wrong_ambiguity(self, reference_dict, new_dict, new_tracker):
+        for an_instance, classes in new_dict.items():
+            if an_instance not in reference_dict:
+                reference_dict[an_instance] = []
+            for a_class in classes:
+                if a_class in reference_dict:                                      # seeded: a dict keyed by INSTANCES
+                    reference_dict[an_instance].append(self._get_label_for_ambiguous_class(a_class=a_class, tracker=new_tracker))
+                else:
+                    reference_dict[an_instance].append(a_class)
+
     def add_dominant_loses_inverse(self, statement):
         statement.is_inverse = False                                               # seeded: merged NONLITERAL statement loses is_inverse
         orig_add_dominant(self, statement)
@@ -2042,6 +2131,11 @@ def _mutants():
          setattr_patch(shp.Shaper, "__init__", init_limit_wins)),
         ("C17", "seeded: the stem is cut at the last '/' or '#', at ':' only when neither exists",
          setattr_patch(amis.AnnotateMinIriStrategy, "_determine_suitable_iri_pattern", pattern_colon_last_resort)),
+        ("C15", "seeded: add_corners_if_it_is_an_uri tests startswith('http')", patch_corners),
+        ("C04", "seeded: _decide_line_reader tests `if raw_graph:` (empty raw graph -> file reader with source_file=None)",
+         setattr_patch(bty.BaseTriplesYielder, "_decide_line_reader", decide_line_reader_truthy)),
+        ("C05", "seeded: MixedInstanceTracker._integrate_dicts tests the class against the dict of instances",
+         setattr_patch(mit.MixedInstanceTracker, "_integrate_dicts", integrate_dicts_wrong_ambiguity)),
         ("C11", "seeded: shex_graph returns a per-format cached string before looking at the threshold",
          setattr_patch(shp.Shaper, "shex_graph", shex_graph_output_cache)),
         ("C15", "seeded: class selectors for the endpoint are collected in a dict keyed by the class's local name",
